@@ -98,11 +98,18 @@ def atom_env(f):
                     and isinstance(e['args'][0], dict) and e['args'][0].get('op') == 'path':
                 xchg[e.get('eid')] = e['args'][0]['p']
     env['$xchg'] = xchg
+    reassigned = set()
+    for b in f.get('blocks', []):
+        for e in b['elems']:
+            if e.get('k') in ('assign', 'incdec') and e.get('lhs') and '.' not in e['lhs']: reassigned.add(e['lhs'])
     for b in f.get('blocks', []):
         for e in b['elems']:
             if e.get('k') != 'decl': continue
             for v in e['vars']:
                 if v['var'] in env: continue
+                if v['var'] in reassigned:
+                    env[v['var']] = '$var<%s>' % re.sub(r'\s+', '', (v.get('type') or '?'))[:40]      # a local that changes: its initialiser says nothing
+                    continue
                 init = v.get('init')
                 if isinstance(init, dict) and init.get('op') == 'path' and not (init.get('p') or '').startswith(('#', '<')):
                     env[v['var']] = _envp(init['p'], env)           # a plain copy of x reads as x
@@ -189,8 +196,9 @@ def branches(f):
         # effects also reachable from the other side (through a different node) are not exclusive
         ct = {effect(G.ev[n]) for n in rt} ; cf = {effect(G.ev[n]) for n in rf}
         et, ef = et - cf, ef - ct
-        if not pos: et, ef = ef, et
-        if et or ef: out.append((atom, et, ef, e.get('line') or G.line(t)))
+        ct, cf = ct - {None}, cf - {None}
+        if not pos: et, ef, ct, cf = ef, et, cf, ct
+        if et or ef: out.append((atom, et, ef, e.get('line') or G.line(t), ct, cf))
     return out
 
 
@@ -217,21 +225,26 @@ def _shape(a):
     return re.sub(r'#-?\w+', '#K', a)
 
 
+ALL_SIDES = {}      # (config, file, fn, atom) -> (all effects reachable when the atom is true, ... when false); filled by table_of
+
+
 def table_of(F):
     """{(file, fn, atom): (T, F, line)} with duplicates merged and conflicting effects dropped"""
     out = {}
     for f in F.funcs:
         if not f.get('blocks'): continue
         fn = norm_fn(f['qname'])
-        for atom, et, ef, line in branches(f):
+        for atom, et, ef, line, ct, cf in branches(f):
             k = (f['file'], fn, atom)
             if k in out:
                 pt, pf, pl = out[k]
                 t2, f2 = pt | et, pf | ef
                 both = t2 & f2
                 out[k] = (t2 - both, f2 - both, pl)
+                ALL_SIDES[(F.config,) + k] = None          # the same test occurs more than once in this function: sides are not comparable
             else:
                 out[k] = (set(et), set(ef), line)
+                ALL_SIDES[(F.config,) + k] = (set(ct), set(cf))
     return out
 
 
@@ -251,6 +264,19 @@ def _check(run, F, prop, fp):
         run.inst('%s:%s %s' % (r['file'], line, r['fn']), 'if %s: %s / else: %s' % (r['atom'][:80], r['T'][:4], r['F'][:4]), key=(r['fn'], r['atom']))
         swapped_t = sorted(x for x in r['T'] if x in cf and x not in ct)
         swapped_f = sorted(x for x in r['F'] if x in ct and x not in cf)
+        # an effect that used to be exclusive to one outcome and is now reached on the other outcome as well (a dropped
+        # `return` / `break` / `else` lets control fall through)
+        at, af = ALL_SIDES.get((F.config,) + k) or (set(), set())
+        leak_t = sorted(x for x in r['T'] if x in af and x in at and x not in swapped_t and not x.startswith('ret'))
+        leak_f = sorted(x for x in r['F'] if x in at and x in af and x not in swapped_f and not x.startswith('ret'))
+        if (leak_t or leak_f) and not (swapped_t or swapped_f):
+            run.violation(r['fn'], 'fallthrough:' + r['atom'][:100], '%s:%s' % (r['file'], line),
+                          'in %s, %s%s%s: an effect that happened on one outcome of the test `%s` only is now reached on both - a `return` / `break` / `else` separating the two outcomes was dropped' % (
+                              r['fn'].split('::')[-1],
+                              ('%s used to happen only when the test is true and now also happens when it is false' % leak_t) if leak_t else '',
+                              '; ' if leak_t and leak_f else '',
+                              ('%s used to happen only when the test is false and now also happens when it is true' % leak_f) if leak_f else '',
+                              r['atom'][:120]))
         if swapped_t or swapped_f:
             run.violation(r['fn'], 'inverted:' + r['atom'][:100], '%s:%s' % (r['file'], line),
                           'the test `%s` in %s is inverted: %s%s%s - each effect now happens on the opposite outcome of the same test as in the frozen protocol table' % (
